@@ -61,7 +61,14 @@ impl<T> AnalysisTask<T> {
         // that snapshot, while `Cancelled::catch` resumes every unrelated panic.
         match salsa::Cancelled::catch(AssertUnwindSafe(operation)) {
             | Ok(output) => Self::Completed(output),
-            | Err(salsa::Cancelled::Local | salsa::Cancelled::PendingWrite) => Self::Cancelled,
+            // Salsa also wakes a worker with `PropagatedPanic` when the worker it
+            // was blocked on (same root, same query) was itself cancelled by a
+            // pending write, so this variant is a cancellation outcome too.
+            | Err(
+                salsa::Cancelled::Local
+                | salsa::Cancelled::PendingWrite
+                | salsa::Cancelled::PropagatedPanic,
+            ) => Self::Cancelled,
             | Err(cancelled) => panic::resume_unwind(Box::new(cancelled)),
         }
     }
